@@ -251,3 +251,23 @@ def facts_of(pc):
         elif c[0] == "arm" and c[3] is not None:
             add(c[3], True)
     return out
+
+
+def split_cases(pc, limit=8):
+    """Case split on disjunctive path conditions (`a || b` known true, `a && b` known false): the list of path conditions,
+    one per case, in which each such condition is replaced by one of its disjuncts.  An obligation that holds in every
+    case holds under pc.  Returns [pc] when there is nothing to split (or more than `limit` cases)."""
+    cases = [[]]
+    for c in pc:
+        alts = [c]
+        cond = pol = None
+        if c[0] == "if":
+            cond, pol = c[1], c[2]
+        if isinstance(cond, Tm) and cond.k == "un" and cond.a[0] == "Not":
+            cond, pol = cond.a[1], not pol
+        if isinstance(cond, Tm) and cond.k == "logic" and ((cond.a[0] == "Or" and pol) or (cond.a[0] == "And" and not pol)):
+            alts = [("if", cond.a[1], pol) + tuple(c[3:]), ("if", cond.a[2], pol) + tuple(c[3:])]
+        cases = [cs + [a] for cs in cases for a in alts]
+        if len(cases) > limit:
+            return [list(pc)]
+    return [tuple(cs) for cs in cases]
